@@ -6,7 +6,9 @@ VARIABLES s, cnt
 Byte(S) == {<<c>> : c \in S}
 Units == IF U = "bytes" THEN Byte({32, 10, 47, 42, 34, 92, 97})
          ELSE Byte({91, 93, 44, 49, 32, 10, 47, 42}) \cup {<<34, 97, 34>>, <<34, 92, 92, 34>>, <<34, 92, 34, 34>>, <<34, 32, 34>>, <<34, 47, 42, 34>>,
-                                                     <<47, 47>>, <<47, 42>>, <<42, 47>>, <<47, 42, 47>>, <<34, 92, 92, 92, 34, 32, 34>>}
+                                                     <<47, 47>>, <<47, 42>>, <<42, 47>>, <<47, 42, 47>>, <<34, 92, 92, 92, 34, 32, 34>>,
+                                                     \* whole comments, so that every adjacency of comments and tokens lies within a few units
+                                                     <<47, 42, 42, 47>>, <<47, 42, 97, 32, 42, 47>>, <<47, 47, 10>>, <<47, 47, 97, 47, 42, 10>>}
 
 Case(t) ==
   LET r == MinifyRun(t)
